@@ -86,7 +86,7 @@ Lemma rejects_rv_branch_refuted :
   exists S P data d', ~ fits_signed 13 (S - P) /\ apply RvBImm12 0 S data P = Ok d' /\
                       rv_branch_target (le_word d') P = S - 8192.
 Proof.
-  exists 4100, 0, [99; 128; 32; 0]. eexists. split; [unfold fits_signed; pows; lia|].
+  exists 4100, 0, [99; 128; 32; 0], [99; 130; 32; 128]. split; [unfold fits_signed; pows; lia|].
   split; vm_compute; reflexivity.
 Qed.
 
@@ -140,7 +140,7 @@ Lemma rejects_rvc_cj_refuted :
   exists S P data d', ~ fits_signed 12 (S - P) /\ apply RvcBcImm11 0 S data P = Ok d' /\
                       rvc_j_target (le_word d') P = S - 4096.
 Proof.
-  exists 2048, 0, [1; 160]. eexists. split; [unfold fits_signed; pows; lia|]. split; vm_compute; reflexivity.
+  exists 2048, 0, [1; 160], [1; 176]. split; [unfold fits_signed; pows; lia|]. split; vm_compute; reflexivity.
 Qed.
 
 Lemma exact_rvc_cb A S P data : bytes_ok 2 data -> S mod 2 = 0 -> P mod 2 = 0 -> fits_signed 9 (S - P) ->
@@ -169,7 +169,7 @@ Lemma rejects_arm_b_refuted :
   exists S P data d', ~ fits_signed 26 (S - (P + 8)) /\ apply ArmImm24 0 S data P = Ok d' /\
                       arm_b_target (le_word d') P = S - 67108864.
 Proof.
-  exists 33554440, 0, [0; 0; 0; 235]. eexists. split; [unfold fits_signed; pows; lia|]. split; vm_compute; reflexivity.
+  exists 33554440, 0, [0; 0; 0; 235], [0; 0; 128; 235]. split; [unfold fits_signed; pows; lia|]. split; vm_compute; reflexivity.
 Qed.
 
 (* ---- x86-64 rel32 (the only class that honours the addend), abs64, and data words *)
@@ -194,7 +194,7 @@ Lemma rejects_x86_rel32_refuted :
   exists A S P data d', ~ fits_signed 32 (S + A - P) /\ apply X86Rel32 A S data P = Ok d' /\
                         x86_rel32 (le_word d') <> S + A - P.
 Proof.
-  exists 0, 2147483648, 0, [0; 0; 0; 0]. eexists. split; [unfold fits_signed; pows; lia|].
+  exists 0, 2147483648, 0, [0; 0; 0; 0], [0; 0; 0; 128]. split; [unfold fits_signed; pows; lia|].
   split; [vm_compute; reflexivity|vm_compute; discriminate].
 Qed.
 
@@ -221,7 +221,7 @@ Lemma addend_refuted :
   exists A S P data d', A <> 0 /\ apply RvBImm20 A S data P = Ok d' /\ rv_jal_target (le_word d') P = S /\
                         rv_jal_target (le_word d') P <> S + A.
 Proof.
-  exists 8, 64, 0, [111; 0; 0; 0]. eexists. split; [lia|]. split; [vm_compute; reflexivity|].
+  exists 8, 64, 0, [111; 0; 0; 0], [111; 0; 0; 4]. split; [lia|]. split; [vm_compute; reflexivity|].
   split; [vm_compute; reflexivity|vm_compute; discriminate].
 Qed.
 
@@ -231,7 +231,7 @@ Lemma thumb_bl_refuted :
   exists S P data d', fits_signed 25 (S - (P + 4)) /\ apply ThBlImm11 0 S data P = Ok d' /\
                       thumb_bl_target (le_word d') P <> S.
 Proof.
-  exists 4194308, 0, [0; 240; 0; 248]. eexists. split; [unfold fits_signed; pows; lia|].
+  exists 4194308, 0, [0; 240; 0; 248], [0; 240; 0; 248]. split; [unfold fits_signed; pows; lia|].
   split; [vm_compute; reflexivity|vm_compute; discriminate].
 Qed.
 
@@ -244,7 +244,7 @@ Lemma symbol_value secs syms id v : get_symbol_id_value secs syms id = Ok v ->
     end.
 Proof.
   unfold get_symbol_id_value. destruct (find_symbol syms id) as [y| | |]; cbn [bind]; try discriminate.
-  destruct (y_undef y) eqn:Eu; [discriminate|]. intros H. exists y. split; [reflexivity|]. split; [reflexivity|].
+  destruct (y_undef y) eqn:Eu; [discriminate|]. intros H. exists y. split; [reflexivity|]. split; [exact Eu|].
   destruct (y_sec y) as [sn|].
   - destruct (find_section secs sn) as [s| | |]; cbn [bind] in H; try discriminate.
     exists s. split; [reflexivity|]. injection H as <-. lia.
@@ -257,16 +257,16 @@ Lemma slice_splice (l x : list Z) b e : 0 <= b -> b <= e -> e <= len l -> len x 
   skipn (Z.to_nat e) (splice l b e x) = skipn (Z.to_nat e) l.
 Proof.
   unfold sliceZ, splice, len. intros Hb Hbe He Hx.
-  assert (L1 : length (firstn (Z.to_nat b) l) = Z.to_nat b) by (rewrite firstn_length; lia).
+  assert (L1 : Datatypes.length (firstn (Z.to_nat b) l) = Z.to_nat b) by (rewrite firstn_length; lia).
   split; [|split].
   - rewrite skipn_app, L1, Nat.sub_diag. cbn [skipn].
     rewrite (skipn_all2 (firstn (Z.to_nat b) l)) by lia. cbn [app].
-    rewrite firstn_app. replace (Z.to_nat (e - b) - length x)%nat with 0%nat by lia.
+    rewrite firstn_app. replace (Z.to_nat (e - b) - Datatypes.length x)%nat with 0%nat by lia.
     cbn [firstn]. rewrite app_nil_r. apply firstn_all2. lia.
   - rewrite firstn_app, L1, Nat.sub_diag. cbn [firstn]. rewrite app_nil_r. apply firstn_all2. lia.
   - rewrite skipn_app, L1. rewrite (skipn_all2 (firstn (Z.to_nat b) l)) by lia. cbn [app].
     rewrite skipn_app. rewrite (skipn_all2 x) by lia. cbn [app].
-    replace (Z.to_nat e - Z.to_nat b - length x)%nat with 0%nat by lia. reflexivity.
+    replace (Z.to_nat e - Z.to_nat b - Datatypes.length x)%nat with 0%nat by lia. reflexivity.
 Qed.
 
 (* Linker._do_relocation patches exactly the [size] bytes at the relocation offset with apply's result *)
